@@ -36,7 +36,7 @@ func FuzzEval(f *testing.F) {
 	}
 	f.Fuzz(func(t *testing.T, expr string, input []byte, sel uint8, flags uint8) {
 		c := Case{Expr: expr, Input: string(input), In: inFormats[int(sel%16)%len(inFormats)], Out: outFormats[int(sel/16)%len(outFormats)],
-			EvalAll: flags&1 != 0, NullIn: flags&6 == 6, Gen: "fuzz"}
+			EvalAll: flags&1 != 0, NullIn: flags&6 == 6, NulSep: flags&24 == 24, Gen: "fuzz"}
 		if len(c.Expr) > 200 || len(c.Input) > 4000 {
 			return
 		}
